@@ -1183,7 +1183,7 @@ func run(cfg Cfg) (Sx, *Sim) {
 	// none of its goroutines is alive (then the write side was never shut down).
 	deadline := time.Now().Add(dl(4 * time.Second))
 	if sim.stuck == 1 {
-		deadline = time.Now().Add(500 * time.Millisecond)
+		deadline = time.Now().Add(200 * time.Millisecond)
 	}
 	seen := 0
 waitEOF:
@@ -1221,7 +1221,7 @@ waitEOF:
 	for sim.takeErr() {
 	}
 	// late sends: must be refused
-	for k := 0; k < cfg.LateSend && !sim.dropped; k++ {
+	for k := 0; k < cfg.LateSend && !sim.dropped && sim.stuck == 0; k++ {
 		code := 0
 		ret := make(chan struct{})
 		go func() {
